@@ -57,13 +57,14 @@ type Program struct {
 	CG       *callgraph.Graph
 	CHA      *callgraph.Graph
 
-	ZapFuncs  []*ssa.Function // all functions (incl. anonymous) of package zap, sorted by name
-	owners    []ownerInfo     // file-owner types (owners.go), while a rule that needs them runs
-	NumFiles  int
-	NumPkgs   int
-	NumAllFns int
-	NumEdges  int
-	LoadSecs  float64
+	ZapFuncs   []*ssa.Function // all functions (incl. anonymous) of package zap, sorted by name
+	owners     []ownerInfo     // file-owner types (owners.go), while a rule that needs them runs
+	discGuards *[]guardSpec    // guarded fields discovered from writes under the struct's own mutex (rules_lock.go)
+	NumFiles   int
+	NumPkgs    int
+	NumAllFns  int
+	NumEdges   int
+	LoadSecs   float64
 
 	funcByName map[string]*ssa.Function
 	summaries  map[string]interface{}
